@@ -795,7 +795,6 @@ func genericHandle(a action, root action, queue chan action, sem *tsync.Semaphor
 		}
 		return
 	}
-	verifStart(a)
 	if !a.IsFailed() {
 		// the action may have already been marked as failed during
 		// construction of the action graph, for example because of
@@ -813,6 +812,7 @@ func genericHandle(a action, root action, queue chan action, sem *tsync.Semaphor
 		}
 	}
 
+	verifStart(a)
 	if !a.IsFailed() {
 		if err := exec(a); err != nil {
 			a.MarkFailed()
